@@ -189,6 +189,9 @@ fn main() {
     let poison = arg_flag(&args, "--poison");
     let quiet_panics = !arg_flag(&args, "--show-panics");
     let markers = arg_flag(&args, "--markers");
+    // --hammer R: with --threads T, thread t owns the records with index = t (mod T) and parses them R times
+    // round-robin, so that different threads are inside the same code with DIFFERENT inputs at the same time
+    let hammer: usize = arg_value(&args, "--hammer").map(|s| s.parse().unwrap()).unwrap_or(0);
     if quiet_panics {
         std::panic::set_hook(Box::new(|_| {}));
     }
@@ -214,6 +217,21 @@ fn main() {
             handles.push(std::thread::spawn(move || {
                 let n = recs.len();
                 let mut v = Vec::with_capacity(n);
+                if hammer > 0 {
+                    let mine: Vec<usize> = (0..n).filter(|i| i % threads == t).collect();
+                    let mut seq = 0usize;
+                    for round in 0..hammer {
+                        for &idx in &mine {
+                            let mut r = recs[idx].clone();
+                            let shape = ((round + t) % 7) as u64;
+                            r["shape"] = Value::from(shape);
+                            let o = run_one(&r, false, false);
+                            v.push(json!({"id": o["id"], "thread": t, "seq": seq, "shape": shape, "kind": o["out"]["kind"], "bits": o["out"]["bits"]}));
+                            seq += 1;
+                        }
+                    }
+                    return v;
+                }
                 for k in 0..n {
                     // each thread walks the records in its own order, with its own iterator shape and
                     // its own stack poisoning pattern
